@@ -1628,6 +1628,8 @@ class Interp:
             return AArr((1,))
         if name == "np.errstate":
             return None
+        if name in ("np.result_type", "np.promote_types", "np.dtype"):
+            return "<dtype>"         # an opaque dtype value
         if name in ("np.zeros_like", "np.ones_like", "np.copy", "np.array",
                     "np.asarray") and args and isinstance(args[0], AArr):
             return args[0]
